@@ -294,3 +294,71 @@ def check_freeze(apply, arrays, diff_idx, name, rows):
                     viol.append({"kind": f"{name}:freeze-then-backward-wrong", "detail": f"operand {k} (still requiring grad) did not accumulate J^T g twice"}); break
         if viol: break
     return viol
+
+
+def check_embedded(apply, arrays, diff_idx, name):
+    """the operation inside a larger DAG, decided differentially against the operation on its own (whose VJP C01/C02 decide):
+    every differentiable operand is an interior node (leaf * 1.0) that ALSO feeds a sibling branch, the operation is applied twice
+    to the same operand tensors, and the first result is consumed twice.  With G = G1 + G2 + G3:
+        leaf_k.grad  ==  (grad of operand k when the operation alone is back-propagated with G)  +  W_k
+    in both construction orders; retained interior gradients are the sums over their consumers."""
+    sg = harness.load()
+    viol = []
+    def v(sym, detail):
+        if all(x["kind"] != f"{name}:{sym}" for x in viol): viol.append({"kind": f"{name}:{sym}", "detail": detail})
+    mk = lambda: [sg.Tensor(np.array(a, copy=True), requires_grad=(i in diff_idx)) for i, a in enumerate(arrays)]
+    try:
+        ts0 = mk(); out0 = apply(ts0)
+    except harness.HarnessError:
+        raise
+    except Exception:
+        return [], False
+    y = np.asarray(out0.data)
+    if y.dtype.kind != "f" or y.size == 0 or not np.all(np.isfinite(y)) or not out0.requires_grad:
+        return [], False
+    dt = y.dtype
+    G1 = np.asarray(values.dense_g(y.shape), dtype=dt); G2 = np.asarray(values.dense_g(y.shape, salt=5) * 0.5 - 0.25, dtype=dt)
+    G3 = np.asarray(values.dense_g(y.shape, salt=9) * 0.25 + 0.125, dtype=dt)
+    W = {k: np.asarray(values.dense_g(np.shape(arrays[k]), salt=20 + k), dtype=np.asarray(arrays[k]).dtype) for k in diff_idx}
+    try:
+        out0.backward(sg.Tensor(G1 + G2 + G3))
+        plain = {k: np.asarray(ts0[k].grad.data, dtype=np.float64) for k in diff_idx}
+    except harness.HarnessError:
+        raise
+    except Exception:
+        return [], False           # C01/C02 report a failing plain backward
+    for order in ("sides-first", "sides-last"):
+        L = mk()
+        try:
+            pre = [(t * 1.0) if i in diff_idx else t for i, t in enumerate(L)]
+            sides = {}
+            if order == "sides-first":
+                for k in diff_idx: sides[k] = pre[k] * sg.Tensor(W[k])
+                oa = apply(pre); ob = apply(pre)
+            else:
+                ob = apply(pre); oa = apply(pre)
+                for k in diff_idx: sides[k] = pre[k] * sg.Tensor(W[k])
+            for k in diff_idx: pre[k].retain_grad()
+            oa.retain_grad()
+            r = (oa * sg.Tensor(G1)).sum() + (ob * sg.Tensor(G3)).sum() + (oa * sg.Tensor(G2)).sum()
+            for k in diff_idx: r = r + sides[k].sum()
+            r.backward()
+        except harness.HarnessError:
+            raise
+        except Exception as e:
+            v("embedded-raised", f"{order}: the operation alone works, inside a DAG (interior operands, result used twice): {type(e).__name__}: {str(e)[:80]}")
+            continue
+        for k in diff_idx:
+            exp = plain[k] + np.asarray(W[k], dtype=np.float64)
+            for what, t in (("leaf", L[k]), ("interior operand", pre[k])):
+                gr = t.grad
+                got = None if gr is None else np.asarray(gr.data, dtype=np.float64)
+                if got is None or got.shape != exp.shape or not fd.close(got.reshape(-1), exp.reshape(-1), 1e-9, 1e-11):
+                    v("embedded-grad-differs", f"{order}: {what} {k}: gradient inside the DAG {None if got is None else got.reshape(-1)[:4]} != "
+                      f"gradient of the operation alone under G1+G2+G3 plus the sibling branch {exp.reshape(-1)[:4]}")
+        gr = oa.grad
+        if oa is ob or any(oa is p_ for p_ in pre):
+            continue        # an identity operation may return its operand (Dropout in eval mode): the result is then not a node of its own
+        if gr is None or not fd.close(np.asarray(gr.data, dtype=np.float64).reshape(-1), (G1.astype(np.float64) + G2).reshape(-1), 1e-12, 1e-12):
+            v("embedded-result-grad", f"{order}: retained gradient of the twice-consumed result is not G1 + G2")
+    return viol, True
